@@ -30,6 +30,15 @@ pub fn lemma_utf8_ok<const N: usize, S: Src>(src: &mut S) {
     vcheck!(src, mine == theirs, "lemma: utf8_ok == std::str::from_utf8(..).is_ok()");
 }
 
+/// model lemma: the stub used for `core::str::count::count_chars` equals the real `Chars::count` (this harness runs
+/// WITHOUT that stub)
+pub fn lemma_count_chars<const N: usize, S: Src>(src: &mut S) {
+    let (bytes, len) = vrt::draw_input::<N, S>(src, None);
+    let s = vrt::as_input(src, &bytes, len);
+    vcover!(src, len == N && bytes[0] >= 0x80, "multi-byte text");
+    vcheck!(src, vrt::count_chars_model(s) == s.chars().count(), "lemma: count_chars_model == Chars::count");
+}
+
 // --------------------------------------------------------------------------------------------
 // C11: PrettyParseError::from_parse_error
 
